@@ -651,7 +651,7 @@ class Emitter:
             return self.emit_as_object(kids(n)[0], ti, hint)
         if k in ('CallExpr', 'CXXMemberCallExpr', 'CXXOperatorCallExpr'):
             rti = self.tm.info(qtype(n))
-            if rti['kind'] in ('class', 'vec') and n.get('valueCategory') == 'prvalue':
+            if rti['kind'] in ('class', 'vec', 'engine') and n.get('valueCategory') == 'prvalue':
                 return ('into', self.call(n, dst='@DST@') + ';')
             return ('lvalue', self.emit(n))
         if k == 'InitListExpr':
@@ -1044,7 +1044,7 @@ class Emitter:
                 if steps:
                     al[idx] = '&((%s).%s)' % (self.emit(strip_all(a)), '.'.join(['base'] * steps))
             rti = self.tm.info(qtype(n))
-            if rti['kind'] in ('class', 'vec') and n.get('valueCategory') == 'prvalue':
+            if rti['kind'] in ('class', 'vec', 'engine') and n.get('valueCategory') == 'prvalue':
                 if dst is None:
                     raise ExtractError('class-valued member call %s used as a sub-expression' % cname)
                 al = [dst] + al
@@ -1129,6 +1129,9 @@ class Emitter:
             inner = inner[1:-1]
         else:
             inner = btxt
+        if be and re.search(r'\bbreak\s*;', inner) and not re.search(r'\b(for|while|switch)\s*\(', inner):
+            # ghost code at the end of the body must also run when the loop is left by `break`
+            inner = re.sub(r'\bbreak\s*;', lambda m: '{\n%s\nbreak; }' % be, inner)
         if be and re.search(r'\bcontinue\b', inner):
             # ghost code at the end of the body must also run on `continue`
             inner = re.sub(r'\bcontinue\s*;', '{ goto vp_cont_%s_%d; }' % (fn, k), inner)
@@ -1221,7 +1224,8 @@ class Emitter:
             is_local = src['kind'] == 'DeclRefExpr' and src.get('referencedDecl', {}).get('kind') == 'VarDecl'
             if is_local or rti['kind'] == 'engine':
                 return '{ *vp_ret = %s; %s return; }' % (val[1], ex)     # a local is moved out
-            return '{ vp_%s_copy(vp_ret, &(%s)); %s return; }' % (rti['ctype'], val[1], ex)   # anything else is copied
+            cp = 'vp_%s_copy' % rti['ctype']
+            return '{ %s(vp_ret, &(%s)); %s return; }' % (self.opts.get('rename', {}).get(cp, cp), val[1], ex)   # anything else is copied
         if rti['kind'] in ('class', 'vec') and rti['ref']:
             return '{ %s return &(%s); }' % (ex, self.emit(strip_all(ks[0])))
         if ex:
